@@ -172,7 +172,10 @@ def regen_tables():
     if rc != 0:
         return False, out0 + out
     rc, out2 = sh([sys.executable, os.path.join(VERIF, "tools", "gen_dbkinds.py"), REPO, os.path.join(BUILD, "plain"), os.path.join(LEAN, "Shm", "Gen")])
-    return rc == 0, out0 + out + out2
+    if rc != 0: return False, out0 + out + out2
+    # the guards every function of SoftHSM.cpp mentions, from the source text (Props/Facts*.lean are decided against it)
+    rc, out3 = sh([sys.executable, os.path.join(VERIF, "tools", "extract_facts.py"), REPO, os.path.join(LEAN, "Shm", "Gen")])
+    return rc == 0, out0 + out + out2 + out3
 
 
 def lake_build():
